@@ -289,7 +289,10 @@ fn call_spans(progs: &[Vec<Call>], o: &Outcome) -> Vec<Vec<(usize, usize)>> {
                 // previous call complete? complete calls == results recorded so far is not known per grant;
                 // use the program: a retry load_tail only happens for pushes, right after a claim/cas_new grant
                 let prev_id = o.run.trace[..gi].iter().rev().find(|(t2, _)| t2 == t).map(|x| x.1).unwrap_or("");
+                // … and a clear comes back to its load_tail right after a failed detach CAS (fix: "clear_with retries its
+                // detach when the tail moved under it"; a successful CAS is followed by `bkt.clear.quiesced`)
                 !(*id == "bkt.push.load_tail" && (prev_id == "blk.push.claim" || prev_id == "bkt.push.cas_new"))
+                    && !(*id == "bkt.clear.load_tail" && prev_id == "bkt.clear.cas")
             });
         if begins_new {
             spans[*t].push((gi, gi));
@@ -310,7 +313,8 @@ pub struct Sig {
     /// `k1` above is the older, coarser trace signature (any clear's CAS step between a pusher's tail load and its claim).
     pub k1_exact: usize,
     /// grant indices of the `bkt.clear.cas` steps whose compare-exchange FAILED (the thread's next point is not
-    /// `bkt.clear.quiesced`): that `clear_with` returns having delivered nothing (`C05.failed_detach_delivers_nothing_and_loses_nothing`)
+    /// `bkt.clear.quiesced`): that `clear_with` goes back to its tail load and retries, nothing changed
+    /// (`C05.failed_detach_delivers_nothing_and_loses_nothing`, `C05.detach_cas_all_or_nothing`)
     pub failed_detaches: Vec<usize>,
 }
 
@@ -330,7 +334,8 @@ pub fn signatures_of_trace(tr: &[(usize, &'static str)]) -> Sig {
     // first-block CAS, or the won hand-over CAS: the only steps that lead to the claim point; Lean:
     // `C05.pusher_claims_on_the_tail_it_saw`). A clear detaches the chain in the grant of `bkt.clear.cas` (the yield point
     // between its tail load and its CAS; reached only when the loaded tail was non-null) iff the CAS succeeds, i.e. iff
-    // that thread's next point is `bkt.clear.quiesced` (a failed CAS ends the call: `C05.detach_cas_all_or_nothing`).
+    // that thread's next point is `bkt.clear.quiesced` (a failed CAS leads back to `bkt.clear.load_tail`:
+    // `C05.detach_cas_all_or_nothing`).
     // The claim really takes a slot iff the pusher's next point is the publish step.
     let next_of = |gi: usize, t: usize| tr[gi + 1..].iter().find(|(t2, _)| *t2 == t).map(|x| x.1);
     let detaches: Vec<usize> = tr
@@ -429,6 +434,7 @@ pub fn oracle(out: &mut Out, progs: &[Vec<Call>], o: &Outcome) {
     let spans = call_spans(progs, o);
     let mut pushed: BTreeMap<u64, usize> = BTreeMap::new(); // value -> grant index at which its push completed
     let mut delivered: BTreeMap<u64, usize> = BTreeMap::new();
+    let mut delivered_began: BTreeMap<u64, usize> = BTreeMap::new(); // value -> first grant of the clear that delivered it
     let mut dup = vec![];
     for (t, prog) in progs.iter().enumerate() {
         for (i, c) in prog.iter().enumerate() {
@@ -442,6 +448,7 @@ pub fn oracle(out: &mut Out, progs: &[Vec<Call>], o: &Outcome) {
                         if delivered.insert(*v, sp.1).is_some() {
                             dup.push(*v);
                         }
+                        delivered_began.entry(*v).or_insert(sp.0);
                     }
                 }
                 _ => {}
@@ -456,32 +463,62 @@ pub fn oracle(out: &mut Out, progs: &[Vec<Call>], o: &Outcome) {
         format!("{} :: trace {} results(non-push) {:?}", what, trs, rs)
     };
     // ---- a clear whose detach CAS failed (the tail changed between its load and its CAS: a pusher's hand-over or another
-    // clear's detach): it must return having called its callback not at all (`C05.detach_cas_all_or_nothing`: there is no
-    // partial drain). No clause of C05 is violated by the empty result — the values stay visible to later reads, which the
-    // conservation and snapshot oracles below check as for every run — so this is counted, not alarmed.
+    // clear's detach). Since the fix "clear_with retries its detach when the tail moved under it" the clearer goes back to
+    // its tail load inside the SAME call (`C05.detach_cas_all_or_nothing`: a failed CAS changes nothing and leads to
+    // `cLoadTail`); before the fix the call ended there with nothing delivered.
+    let next_of = |gi: usize, t: usize| o.run.trace[gi + 1..].iter().find(|(t2, _)| *t2 == t).map(|x| x.1);
     for g in &sig.failed_detaches {
         let t = o.run.trace[*g].0;
-        out.count("clear: detach CAS failed (clear_with returned without draining)");
+        out.count("clear: detach CAS failed (clear_with loads the tail again and retries)");
+        if !matches!(next_of(*g, t), Some("bkt.clear.load_tail") | None) {
+            out.oracle_fail(
+                "clear_with whose detach compare-exchange failed did not load the tail again (it gave up without draining)",
+                &detail(&format!("thread {} grant {} next point {:?}", t, g, next_of(*g, t))),
+            );
+        }
         let Some(k) = spans[t].iter().position(|sp| sp.0 <= *g && *g <= sp.1) else { continue };
-        let began = spans[t][k].0;
-        match (progs[t].get(k), o.results[t].get(k), o.cbs[t].get(k)) {
-            (Some(Call::Clear), Some(Res::Clr(vs)), Some(lens)) => {
-                if !vs.is_empty() || !lens.is_empty() {
-                    out.oracle_fail(
-                        "clear_with whose detach compare-exchange failed still called its callback (partial drain)",
-                        &detail(&format!("thread {} call {} delivered {:?} in {} callbacks", t, k, vs, lens.len())),
-                    );
-                }
-                // completed pushes that were in the bucket before this clear began and that no clear (this one included)
-                // ever took before it began: the drain missed them — they must still be accounted for at the end
-                let missed = pushed.iter().filter(|(v, done_at)| **done_at < began && delivered.get(*v).map_or(true, |d| *d > began)).count();
-                if missed > 0 {
-                    out.count("clear: failed detach delivered nothing although pushes completed before it began were in the bucket");
+        match (progs[t].get(k), o.results[t].get(k)) {
+            (Some(Call::Clear), Some(Res::Clr(vs))) => {
+                if !vs.is_empty() {
+                    out.count("clear: detach retried after a failed CAS, and the same call delivered values");
                     out.nontrivial();
                 }
             }
-            (Some(Call::Clear), None, _) => {} // the run ended before the call returned
+            (Some(Call::Clear), None) => {} // the run ended before the call returned
             other => out.oracle_fail("trace/program mismatch: a bkt.clear.cas grant inside a call that is not a clear", &detail(&format!("{:?}", other.0))),
+        }
+    }
+    // ---- completeness of clears (Lean: `C05.delivered_once_clear_returned`, schedules without a K1 step): a push that
+    // COMPLETED before a clear_with began is, once that clear has returned, no longer reachable from the tail — it has been
+    // detached by this clear or by one that began before this one returned. So the clear that delivers it (if the run
+    // completed, every detached value is delivered) must have begun before this clear returned; a value still visible at the
+    // end, or delivered only by a clear that began later, was left behind by a clear that returned (pre-fix: the failed detach).
+    if sig.k1_exact == 0 && o.results.iter().zip(progs.iter()).all(|(r, p)| r.len() == p.len()) {
+        let mut checked = 0u64;
+        'outer: for (t, prog) in progs.iter().enumerate() {
+            for (k, c) in prog.iter().enumerate() {
+                if *c != Call::Clear {
+                    continue;
+                }
+                let Some(sp) = spans[t].get(k) else { continue };
+                for (v, done_at) in pushed.iter().filter(|(_, d)| **d < sp.0) {
+                    checked += 1;
+                    let ok = matches!(delivered_began.get(v), Some(b) if *b <= sp.1);
+                    if !ok {
+                        out.oracle_fail(
+                            "a clear_with that began after a push had completed returned, and the value was still in the bucket (left for a later clear) [no-known-signature]",
+                            &detail(&format!(
+                                "value {} push completed at grant {}, clear of thread {} call {} spans grants {}..{}, delivered by a clear that began at {:?} (signature {})",
+                                v, done_at, t, k, sp.0, sp.1, delivered_began.get(v), tag(&sig)
+                            )),
+                        );
+                        break 'outer;
+                    }
+                }
+            }
+        }
+        if checked > 0 {
+            out.count_n("clear completeness: (completed push, later clear that returned) pairs checked", checked);
         }
     }
     // ---- destructors / reclamation: every value handed to push() is dropped exactly once after the final clear(),
@@ -862,11 +899,12 @@ pub fn run(cfg: &Cfg, out: &mut Out) {
     ));
     // plain hand-over
     corpus.push((vec![pf(B + 2), vec![Call::Data, Call::Clear, Call::Data]], [rep(0, (B + 2) * 3 + 8), rep(1, 60)].concat()));
-    // FAILED DETACH (Lean: C05.failed_detach_witness / failed_detach_delivers_nothing_and_loses_nothing; the bucket-level
-    // form of C07.conc_render_can_miss_completed_record): 64 pushes have COMPLETED and fill the tail block; the clearer
-    // loads the tail and is parked at its CAS (`bkt.clear.cas`); the 65th push finds the block full, installs a new tail
-    // and completes; the clearer's CAS fails: `clear_with` returns having delivered nothing although 64 pushes had
-    // completed before it began. The snapshot after it sees all 65 values, the next clear delivers all 65.
+    // FAILED DETACH, RETRIED (Lean: C05.failed_detach_witness / detach_cas_all_or_nothing / delivered_once_clear_returned;
+    // the pre-fix behaviour is C05.legacy_failed_detach_witness, the bucket-level form of the repaired K-C07-K2): 64 pushes
+    // have COMPLETED and fill the tail block; the clearer loads the tail and is parked at its CAS (`bkt.clear.cas`); the
+    // 65th push finds the block full, installs a new tail and completes; the clearer's CAS fails: `clear_with` loads the
+    // tail again, detaches and delivers all 65 (before the fix it returned having delivered nothing). The snapshot after
+    // it sees nothing, the next clear delivers nothing.
     corpus.push((
         vec![pf(B), vec![Call::Push(9000)], vec![Call::Clear, Call::Data, Call::Clear, Call::Data, Call::IsEmpty]],
         [rep(0, B * 3 + 3), rep(2, 2), rep(1, 6), rep(2, 40)].concat(),
@@ -877,13 +915,13 @@ pub fn run(cfg: &Cfg, out: &mut Out) {
         [rep(0, B * 3 + 3), rep(2, 2), rep(1, 3 * (B + 1) + 6), rep(2, 40)].concat(),
     ));
     // failed detach caused by ANOTHER CLEAR: A loads the tail, B detaches and delivers everything, A's CAS fails (the
-    // tail is null): A delivers nothing, nothing is delivered twice
+    // tail is null): A loads the tail again, finds it null and delivers nothing, nothing is delivered twice
     corpus.push((
         vec![pf(3), vec![Call::Clear, Call::IsEmpty], vec![Call::Clear, Call::Data]],
         [rep(0, 3 * 3 + 3), rep(1, 2), rep(2, 7), rep(1, 6), rep(2, 6)].concat(),
     ));
     // … and with a push re-installing a first block between B's detach and A's CAS (the tail is non-null again, but it is
-    // another block than the one A loaded — blocks are never reused while a reader is pinned)
+    // another block than the one A loaded — blocks are never reused while a reader is pinned): A's retry detaches that block
     corpus.push((
         vec![pf(3), vec![Call::Clear, Call::Data], vec![Call::Clear], vec![Call::Push(777)]],
         [rep(0, 3 * 3 + 3), rep(1, 2), rep(2, 7), rep(3, 5), rep(1, 8)].concat(),
@@ -928,7 +966,7 @@ pub fn run(cfg: &Cfg, out: &mut Out) {
     }
     // ---- failed-detach grid: the clearer (T2) has loaded the tail and is parked at its detach CAS (`bkt.clear.cas`)
     // while the pusher T1 completes j pushes — crossing the hand-over when pre + j > B, which makes the CAS fail —
-    // optionally a second clearer (T3) runs a whole clear meanwhile; then T2 goes on (CAS, snapshot, second clear).
+    // optionally a second clearer (T3) runs a whole clear meanwhile; then T2 goes on (CAS, retry, snapshot, second clear).
     for pre in [1usize, B - 1, B] {
         for j in [1usize, 2, B + 1] {
             for second_clearer in [false, true] {
